@@ -142,7 +142,13 @@ func c05Check(c *C05Case) Verdict {
 	if point < 0 {
 		return inconclusive("no callback had started when the context was cancelled at %v: %v", at, traceStrings(tr))
 	}
-	// (2) after the cancellation instant: no exec attempt starts, no further node (prep) starts
+	if tr[point].Batch {
+		// cancellation inside a batch node's own callbacks is C11's subject (a batch that was
+		// cut short may still call post and report through its slots)
+		return ok(false, "flavor:"+c.Flavor, "inside-batch-node")
+	}
+	// (2) after the cancellation instant: no exec attempt starts, no further node (prep) starts -
+	// whatever kind the next node is
 	for _, e := range tr[point+1:] {
 		if e.Phase == "exec" || e.Phase == "prep" {
 			return bad("C05:started-after-cancel:"+e.Phase, "context was cancelled at %v (during or after %s), yet %s was started afterwards: %v", at, tr[point], e, traceStrings(tr))
@@ -171,6 +177,7 @@ func c05Check(c *C05Case) Verdict {
 	if cut {
 		cls = append(cls, "cut-short")
 	}
+	cls = append(cls, sc.batchClass()...)
 	return ok(cut, cls...)
 }
 
@@ -189,7 +196,7 @@ func c05Points(sc *WF) int { return len(newWfModel(sc).run().Trace) }
 func TestC05(t *testing.T) {
 	r := newRun(t, "C05")
 	defer r.finish()
-	g := wfGen{MaxLeaves: 4, MaxFlows: 3, Actions: []string{"a", "b", ""}, PErr: 30, PExecErr: 350, MaxN: 4, Waits: true, MaxVisits: 2, FuelMax: 7}
+	g := wfGen{MaxLeaves: 4, MaxFlows: 3, Actions: []string{"a", "b", ""}, PErr: 30, PExecErr: 350, MaxN: 4, Waits: true, MaxVisits: 2, FuelMax: 7, PBatch: 200}
 	gs := wfGen{MaxLeaves: 1, Actions: []string{"a", ""}, PErr: 50, PExecErr: 500, MaxN: 4, Waits: true, MaxVisits: 1, FuelMax: 3}
 	points := 0
 	for _, part := range []struct {
